@@ -22,7 +22,7 @@ pub fn prop() -> Prop {
             Sub::enumerate("ellipses", ellipses),
             Sub::enumerate("rrect_equivalences", rrect_equiv),
             Sub::tape("rrect_random", 24, 200_000, 10_000_000, rrect_random),
-            Sub::tape("large_round", 12, 3_000, 150_000, large_round),
+            Sub::tape("large_round", 12, 6_000, 300_000, large_round),
             Sub::enumerate("sector_grid", sector_grid).with_fp(),
             Sub::tape("sectors_random", 10, 60_000, 3_000_000, sectors_random).with_fp(),
         ],
@@ -200,16 +200,38 @@ fn rrect_random(d: &mut Dec, cx: &mut Cx) -> Res {
     let big = d.ratio(1, 4);
     let m = if big { 300 } else { 20 };
     let (w, h) = if big { (d.u(0, 60), d.u(0, 60)) } else { (d.size(24), d.size(24)) };
-    let tl = gen::point(d, 9);
+    let tl = gen::point(d, 9) + gen::far_offset(d);
     let radii = CornerRadii {
         top_left: Size::new(d.size(m), d.size(m)),
         top_right: Size::new(d.size(m), d.size(m)),
         bottom_right: Size::new(d.size(m), d.size(m)),
         bottom_left: Size::new(d.size(m), d.size(m)),
     };
+    // auxiliary words 5..=7: one case in eight is a narrow strip (1..=5 px) whose one corner spans the
+    // whole narrow side and is 8..=60 long, with sharp neighbours: corner rows / columns without a pixel
+    let spanning = d.aux_u(5, 0, 7) == 7;
+    let (w, h, radii) = if spanning {
+        let v = d.aux_u(6, 0, 39);
+        let (corner, tall, n) = (v % 4, (v / 4) % 2 == 0, 1 + v / 8);
+        let v2 = d.aux_u(7, 0, 264);
+        let long = 8 + v2 % 53;
+        let r_long = long - (v2 / 53).min(long - 1);
+        let (w, h) = if tall { (n, long) } else { (long, n) };
+        let r = if tall { Size::new(n, r_long) } else { Size::new(r_long, n) };
+        let z = Size::zero();
+        let radii = match corner {
+            0 => CornerRadii { top_left: r, top_right: z, bottom_right: z, bottom_left: z },
+            1 => CornerRadii { top_left: z, top_right: r, bottom_right: z, bottom_left: z },
+            2 => CornerRadii { top_left: z, top_right: z, bottom_right: r, bottom_left: z },
+            _ => CornerRadii { top_left: z, top_right: z, bottom_right: z, bottom_left: r },
+        };
+        (w, h, radii)
+    } else {
+        (w, h, radii)
+    };
     let rr = RoundedRectangle::new(Rectangle::new(tl, Size::new(w, h)), radii);
     cx.describe(|| format!("{:?}", rr));
-    cx.class(if big { "radii_to_300" } else { "radii_to_20" });
+    cx.class(if spanning { "strip_with_spanning_corner" } else if big { "radii_to_300" } else { "radii_to_20" });
     let conf = rr.confine_radii();
     let c = conf.corners;
     ensure!(conf.rectangle == rr.rectangle, "rounded_rectangle:confine_changes_rectangle", "confine_radii() changed the rectangle");
@@ -250,10 +272,19 @@ fn rrect_random(d: &mut Dec, cx: &mut Cx) -> Res {
         ),
     ];
     let mut count = 0;
+    // the same verdicts for the points() iterator (hit test and iterator are separate code)
+    let budget = (ww * hh) as usize + 16;
+    let mut pts: std::collections::BTreeSet<(i32, i32)> = Default::default();
+    for (k, q) in rr.points().enumerate() {
+        ensure!(k < budget, "rounded_rectangle:points_too_many", "points() yields more than {} points for a {}x{} rectangle", budget, w, h);
+        pts.insert((q.x, q.y));
+        ensure!(q.x >= tl.x && q.x < tl.x + w as i32 && q.y >= tl.y && q.y < tl.y + h as i32, "rounded_rectangle:points_outside_rectangle", "points() yields {:?} outside the rectangle", q);
+    }
     for yy in 0..hh {
         for xx in 0..ww {
             let p = Point::new(x0 + xx, y0 + yy);
             let m = rr.contains(p);
+            let mp = pts.contains(&(p.x, p.y));
             grid[(yy * ww + xx) as usize] = m;
             count += usize::from(m);
             let in_rect = p.x >= tl.x && p.x < tl.x + w as i32 && p.y >= tl.y && p.y < tl.y + h as i32;
@@ -284,13 +315,15 @@ fn rrect_random(d: &mut Dec, cx: &mut Cx) -> Res {
             }
             if must_out {
                 ensure!(!m, "rounded_rectangle:corner_band_extra", "{:?} lies more than 0.5 px outside an ideal corner curve (confined radii {:?}) but is included", p, c);
+                ensure!(!mp, "rounded_rectangle:corner_band_extra_points", "{:?} lies more than 0.5 px outside an ideal corner curve (confined radii {:?}) but points() yields it", p, c);
             } else if must_in {
                 ensure!(m, "rounded_rectangle:corner_band_missing", "{:?} lies inside the rectangle and clear of every corner curve (confined radii {:?}) but is not included", p, c);
+                ensure!(mp, "rounded_rectangle:corner_band_missing_points", "{:?} lies inside the rectangle and clear of every corner curve (confined radii {:?}) but points() does not yield it", p, c);
             }
         }
     }
     check_runs("rounded_rectangle", &grid, ww, hh, Point::new(x0, y0))?;
-    cx.nontrivial(w >= 5 && h >= 5 && !fits && count >= 3);
+    cx.nontrivial((w >= 5 && h >= 5 && !fits && count >= 3) || (spanning && count >= 3));
     Ok(())
 }
 
@@ -399,7 +432,7 @@ fn sectors_random(d: &mut Dec, cx: &mut Cx) -> Res {
         1 => d.u(0, 48),
         _ => d.u(0, 128),
     };
-    let tl = gen::point(d, 40);
+    let tl = gen::point(d, 40) + gen::far_offset(d);
     let (start, sweep) = (gen::angle_deg(d), gen::angle_deg(d));
     cx.describe(|| format!("Sector/Arc top_left={:?} d={} start={} sweep={}", tl, dia, start, sweep));
     cx.class(if sweep.abs() >= 360.0 { "full" } else if sweep.fract() != 0.0 || start.fract() != 0.0 { "fractional" } else { "integer" });
@@ -412,7 +445,7 @@ fn sectors_random(d: &mut Dec, cx: &mut Cx) -> Res {
 /// Circles and ellipses of 100..=500 px against the ideal curve (the enumerations stop at 128 / 64).
 fn large_round(d: &mut Dec, cx: &mut Cx) -> Res {
     let kind = if d.bool() { 1 } else { 2 };
-    let s = gen::large_shape(d, kind, 100, 500);
+    let s = gen::large_shape(d, kind, 100, 500).translate(gen::far_offset(d));
     cx.describe(|| format!("{:?}", s));
     cx.class(s.kind());
     cx.nontrivial(true);
